@@ -35,7 +35,7 @@ def resolve_ttl(req_ttl, def_ttl, max_ttl):
 
 def run(ctx):
     ctx.level = "proof"
-    proved = vlib.prove(ctx, ["Properties_C06.v"], facts=["cred", "base64"])
+    proved = vlib.prove(ctx, ["Properties_C06.v"], facts=["cred", "base64", "cfun"])
     ctx.log("proofs:", "ok" if proved else "BROKEN: " + getattr(ctx, "broken_obligation", "?"))
     ctx.cov["rule"] = ("cases = (--max-ttl) x (requested TTL in {0,1,max-1,max,max+1,2^31,2^32-1,...}) x (encode time incl. "
                        "uint32 edges) x (decode time at every window end-point -1/0/+1 and random inside/outside); each case "
